@@ -354,11 +354,27 @@ func runC19(p *core.Prog, r *core.Report, tier string) {
 				return
 			}
 			nDyn++
-			okForm := false
-			if sp, ok := a.(*ssa.Call); ok && strings.HasSuffix(core.CalleeName(&sp.Call), "fmt.Sprintf") {
-				if format, ok := constString(sp.Call.Args[0]); ok {
-					first := strings.SplitN(format, ".", 2)[0]
-					okForm = first != "" && !strings.Contains(first, "%") && !strings.HasSuffix(format, ".")
+			okForm := true
+			for _, lf := range core.PhiLeaves(a, c) {
+				okLeaf := false
+				switch x := lf.V.(type) {
+				case *ssa.Const, *ssa.Parameter:
+					okLeaf = true
+				case *ssa.Call:
+					if strings.HasSuffix(core.CalleeName(&x.Call), "fmt.Sprintf") {
+						if format, ok := constString(x.Call.Args[0]); ok {
+							first := strings.SplitN(format, ".", 2)[0]
+							okLeaf = first != "" && !strings.Contains(first, "%") && !strings.HasSuffix(format, ".")
+						}
+					}
+				case *ssa.BinOp:
+					// "<literal>." + part, where control only arrives with part equal to a non-empty constant
+					if pre, ok := constString(x.X); ok && x.Op == token.ADD && strings.HasSuffix(pre, ".") && pre != "." {
+						okLeaf = arrivesOnlyWithNonEmpty(x.Block(), x.Y, 0)
+					}
+				}
+				if !okLeaf {
+					okForm = false
 				}
 			}
 			r.Check(okForm, "C19.8", fmt.Sprintf("%s|path-form#%d", core.FnKey(f), nDyn), p.Pos(c.Pos()), "a path built at run time starts with a literal component", "the path handed to "+org.Name()+" is "+ds.D(a).String()+": with an empty part it becomes a path with an empty component (\"a.b.\"), for which the most specific level is silently skipped")
@@ -519,6 +535,32 @@ func checkHierarchicalLoop(p *core.Prog, r *core.Report, ds *core.Describer, f *
 	for i, e := range path.Edges {
 		if _, ok := e.(*ssa.Parameter); ok {
 			continue
+		}
+		// `path = ""` when there are no more dots, in a loop that runs while path != "": the same as leaving the loop
+		if k, isC := constString(e); isC && k == "" && i < len(path.Block().Preds) {
+			pred := path.Block().Preds[i]
+			noDots := false
+			for _, b := range f.Blocks {
+				iff, ok := b.Instrs[len(b.Instrs)-1].(*ssa.If)
+				if !ok {
+					continue
+				}
+				if cmp, ok := iff.Cond.(*ssa.BinOp); ok && cmp.Op == token.EQL && cmp.X == ssa.Value(lastIndex) && core.IsIntConst(cmp.Y, -1) && (b.Succs[0] == pred || b.Succs[0].Dominates(pred)) {
+					noDots = true
+				}
+			}
+			whileNonEmpty := false
+			if iff, ok := path.Block().Instrs[len(path.Block().Instrs)-1].(*ssa.If); ok {
+				if cmp, ok := iff.Cond.(*ssa.BinOp); ok && cmp.Op == token.NEQ && cmp.X == ssa.Value(path) {
+					if k2, ok := constString(cmp.Y); ok && k2 == "" {
+						whileNonEmpty = true
+					}
+				}
+			}
+			if noDots && whileNonEmpty {
+				r.Hold("C19.4", fmt.Sprintf("%s|step#%d|shortened-path", base, i+1), p.Pos(f.Pos()), "a path without dots continues with \"\", which ends the loop (it runs while path != \"\")")
+				continue
+			}
 		}
 		sl, ok := e.(*ssa.Slice)
 		lowOK := ok && (sl.Low == nil || func() bool { c0, ok := sl.Low.(*ssa.Const); return ok && c0.Value != nil && c0.Int64() == 0 }())
@@ -1048,4 +1090,42 @@ func checkRecursion(p *core.Prog, r *core.Report, ds *core.Describer, f *ssa.Fun
 		r.Check(lowOK && highOK, "C19.4", lc+"|shortened-path", p.Pos(c.Pos()), "fallback with path[0:LastIndex(path, \".\")]", "the fallback path is "+ds.D(lf.V).String()+", expected path[0:i] with i = strings.LastIndex(path, \".\")")
 		*sawShort = true
 	}
+}
+
+// arrivesOnlyWithNonEmpty: every way into b is the true edge of a test `v == "<non-empty constant>"` (a switch case
+// on v), possibly through blocks that only jump.
+func arrivesOnlyWithNonEmpty(b *ssa.BasicBlock, v ssa.Value, depth int) bool {
+	if depth > 4 || len(b.Preds) == 0 {
+		return false
+	}
+	for _, pr := range b.Preds {
+		last := pr.Instrs[len(pr.Instrs)-1]
+		if iff, ok := last.(*ssa.If); ok {
+			cmp, ok := iff.Cond.(*ssa.BinOp)
+			if !ok || cmp.Op != token.EQL || pr.Succs[0] != b {
+				return false
+			}
+			var c ssa.Value
+			switch {
+			case cmp.X == v:
+				c = cmp.Y
+			case cmp.Y == v:
+				c = cmp.X
+			default:
+				return false
+			}
+			if k, ok := constString(c); !ok || k == "" {
+				return false
+			}
+			continue
+		}
+		if _, ok := last.(*ssa.Jump); ok && len(pr.Instrs) == 1 {
+			if !arrivesOnlyWithNonEmpty(pr, v, depth+1) {
+				return false
+			}
+			continue
+		}
+		return false
+	}
+	return true
 }
